@@ -76,6 +76,5 @@ theorem nopanic_step {s s' : State} {t : Nat} {pc : PC} {a : Act} (hK : KInv s) 
   all_goals (try (exfalso; have := ul_w_ne_zero hK hpc; omega))
   all_goals (try (exact absurd (eq2_flag hB hQ hpc) ‹_›))
   all_goals (try (exfalso; have := head_flag hQ ‹_›; simp_all; done))
-  all_goals (trace_state; sorry)
 
 end Dora.Wait.Mtx
